@@ -46,9 +46,8 @@ def entryChunks (so : SOpts) : Entry → List Str
          else [cRecord m d.length (xbasename (if so.reverse && user then path ++ cDot :: so.host else path)),
                d ++ [0]])
 
-/-- the client has read every reply the receiver has sent, all of them positive, and is in its normal mode -/
+/-- the client has read every reply the receiver has sent and is in its normal mode -/
 structure InSync (s : Sess) : Prop where
-  failed : s.failed = false
   dead : s.dead = false
   skip : s.skip = 0
   cons : s.consumed = s.st.out.length
@@ -64,13 +63,13 @@ theorem read_ack {s : Sess} {old : List Reply} (hc : s.consumed = old.length) (h
 theorem stage_paced {s : Sess} (h : InSync s) (bs : Str)
     (hout : (bs.foldl (step o) s.st).out = .ack :: s.st.out) :
     (sendStage o (true, s) bs).1 = true ∧ (sendStage o (true, s) bs).2.st = bs.foldl (step o) s.st ∧
-    InSync (sendStage o (true, s) bs).2 := by
+    InSync (sendStage o (true, s) bs).2 ∧ (sendStage o (true, s) bs).2.failed = s.failed := by
   have hr : sendStage o (true, s) bs = (true, { s.feed o bs with consumed := s.consumed + 1 }) := by
     unfold sendStage
     simp only [if_true]
     exact read_ack (s := s.feed o bs) (old := s.st.out) h.cons hout
   rw [hr]
-  refine ⟨rfl, rfl, h.failed, h.dead, h.skip, ?_⟩
+  refine ⟨rfl, rfl, ⟨h.dead, h.skip, ?_⟩, rfl⟩
   show s.consumed + 1 = (bs.foldl (step o) s.st).out.length
   rw [hout, h.cons]
   rfl
@@ -79,7 +78,7 @@ theorem stage_paced {s : Sess} (h : InSync s) (bs : Str)
 theorem stage_paced' {r : Bool × Sess} (h1 : r.1 = true) (h : InSync r.2) (bs : Str)
     (hout : (bs.foldl (step o) r.2.st).out = .ack :: r.2.st.out) :
     (sendStage o r bs).1 = true ∧ (sendStage o r bs).2.st = bs.foldl (step o) r.2.st ∧
-    InSync (sendStage o r bs).2 := by
+    InSync (sendStage o r bs).2 ∧ (sendStage o r bs).2.failed = r.2.failed := by
   obtain ⟨b, s⟩ := r
   simp only at h1 h hout ⊢
   subst h1
@@ -88,20 +87,23 @@ theorem stage_paced' {r : Bool × Sess} (h1 : r.1 = true) (h : InSync r.2) (bs :
 theorem clientStep_paced (so : SOpts) (co : COpts) {s : Sess} (h : InSync s) (e : Entry)
     (hp : Paced o s.st (entryChunks so e)) :
     InSync (clientStep so co o s e) ∧
-    (clientStep so co o s e).st = (entryChunks so e).flatten.foldl (step o) s.st := by
+    (clientStep so co o s e).st = (entryChunks so e).flatten.foldl (step o) s.st ∧
+    (clientStep so co o s e).failed = s.failed := by
   have hnd : ¬ s.dead = true := by rw [h.dead]; simp
   have hnk : ¬ 0 < s.skip := by rw [h.skip]; simp
   have sentinel : Paced o s.st [exitFlag] →
       InSync (if ((s.feed o exitFlag).read).1 = true then ((s.feed o exitFlag).read).2
               else { ((s.feed o exitFlag).read).2 with dead := true }) ∧
       (if ((s.feed o exitFlag).read).1 = true then ((s.feed o exitFlag).read).2
-              else { ((s.feed o exitFlag).read).2 with dead := true }).st = [exitFlag].flatten.foldl (step o) s.st := by
+              else { ((s.feed o exitFlag).read).2 with dead := true }).st = [exitFlag].flatten.foldl (step o) s.st ∧
+      (if ((s.feed o exitFlag).read).1 = true then ((s.feed o exitFlag).read).2
+              else { ((s.feed o exitFlag).read).2 with dead := true }).failed = s.failed := by
     intro hp'
-    obtain ⟨g1, g2, g3⟩ := stage_paced (o := o) h exitFlag hp'.1
+    obtain ⟨g1, g2, g3, g4⟩ := stage_paced (o := o) h exitFlag hp'.1
     have he : sendStage o (true, s) exitFlag = (s.feed o exitFlag).read := by simp [sendStage]
-    rw [he] at g1 g2 g3
+    rw [he] at g1 g2 g3 g4
     rw [if_pos g1]
-    exact ⟨g3, by simpa using g2⟩
+    exact ⟨g3, by simpa using g2, g4⟩
   cases e with
   | exitSubdir =>
     simp only [clientStep, if_neg hnd, if_neg hnk]
@@ -126,6 +128,7 @@ theorem clientStep_paced (so : SOpts) (co : COpts) {s : Sess} (h : InSync s) (e 
       rw [he] at hp ⊢
       -- `pcp_sendfile` stage by stage
       have key : (sendfileOne so o s path user isDir m t a d).1 = true ∧
+          (sendfileOne so o s path user isDir m t a d).2.failed = s.failed ∧
           InSync (sendfileOne so o s path user isDir m t a d).2 ∧
           (sendfileOne so o s path user isDir m t a d).2.st =
             ((if so.preserve then
@@ -139,7 +142,7 @@ theorem clientStep_paced (so : SOpts) (co : COpts) {s : Sess} (h : InSync s) (e 
         -- the optional `T` record
         have h1 : ∃ r1 : Bool × Sess, (if so.preserve then
               sendStage o (true, s) (tRecord (t / USEC) (if so.subsec then t % USEC else 0) (a / USEC)
-                (if so.subsec then a % USEC else 0)) else (true, s)) = r1 ∧ r1.1 = true ∧ InSync r1.2 ∧
+                (if so.subsec then a % USEC else 0)) else (true, s)) = r1 ∧ r1.1 = true ∧ r1.2.failed = s.failed ∧ InSync r1.2 ∧
             r1.2.st = (if so.preserve then
               [tRecord (t / USEC) (if so.subsec then t % USEC else 0) (a / USEC) (if so.subsec then a % USEC else 0)]
               else []).flatten.foldl (step o) s.st ∧
@@ -150,45 +153,48 @@ theorem clientStep_paced (so : SOpts) (co : COpts) {s : Sess} (h : InSync s) (e 
           cases hpr : so.preserve with
           | false =>
             simp only [hpr, Bool.false_eq_true, if_false] at hp ⊢
-            exact ⟨_, rfl, rfl, h, rfl, by simpa using hp.2⟩
+            exact ⟨_, rfl, rfl, rfl, h, rfl, by simpa using hp.2⟩
           | true =>
             simp only [hpr, if_true] at hp ⊢
-            obtain ⟨g1, g2, g3⟩ := stage_paced (o := o) h _ hp.1.1
-            refine ⟨_, rfl, g1, g3, by simpa using g2, ?_⟩
+            obtain ⟨g1, g2, g3, g4⟩ := stage_paced (o := o) h _ hp.1.1
+            refine ⟨_, rfl, g1, g4, g3, by simpa using g2, ?_⟩
             rw [g2]
             simpa using hp.2
-        obtain ⟨r1, hr1, hr1a, hr1b, hr1c, hr1d⟩ := h1
+        obtain ⟨r1, hr1, hr1a, hr1f, hr1b, hr1c, hr1d⟩ := h1
         rw [hr1, List.flatten_append, List.foldl_append, ← hr1c]
         cases isDir with
         | true =>
           simp only [if_true] at hr1d ⊢
-          obtain ⟨g1, g2, g3⟩ := stage_paced' (o := o) hr1a hr1b _ hr1d.1
-          exact ⟨g1, g3, by simpa using g2⟩
+          obtain ⟨g1, g2, g3, g4⟩ := stage_paced' (o := o) hr1a hr1b _ hr1d.1
+          exact ⟨g1, by rw [g4, hr1f], g3, by simpa using g2⟩
         | false =>
           simp only [Bool.false_eq_true, if_false] at hr1d ⊢
-          obtain ⟨g1, g2, g3⟩ := stage_paced' (o := o) hr1a hr1b _ hr1d.1
+          obtain ⟨g1, g2, g3, g4⟩ := stage_paced' (o := o) hr1a hr1b _ hr1d.1
           have hd2 := hr1d.2.1
           rw [← g2] at hd2
-          obtain ⟨k1, k2, k3⟩ := stage_paced' (o := o) g1 g3 _ hd2
-          refine ⟨k1, k3, ?_⟩
+          obtain ⟨k1, k2, k3, k4⟩ := stage_paced' (o := o) g1 g3 _ hd2
+          refine ⟨k1, by rw [k4, g4, hr1f], k3, ?_⟩
           rw [k2, g2]
           simp
-      obtain ⟨k1, k2, k3⟩ := key
+      obtain ⟨k1, kf, k2, k3⟩ := key
       have hcond : ¬ (!(sendfileOne so o s path user isDir m t a d).1 && isDir && co.skipRefused) = true := by
         rw [k1]; simp
       rw [if_neg hcond]
-      exact ⟨k2, k3⟩
+      exact ⟨k2, k3, kf⟩
 
 theorem foldl_paced (so : SOpts) (co : COpts) (es : List Entry) {s : Sess} (h : InSync s)
     (hp : Paced o s.st (es.flatMap (entryChunks so))) :
-    InSync (es.foldl (clientStep so co o) s) := by
+    InSync (es.foldl (clientStep so co o) s) ∧ (es.foldl (clientStep so co o) s).failed = s.failed ∧
+    (es.foldl (clientStep so co o) s).st = (es.flatMap (entryChunks so)).flatten.foldl (step o) s.st := by
   induction es generalizing s with
-  | nil => exact h
+  | nil => exact ⟨h, rfl, rfl⟩
   | cons e es ih =>
     rw [List.flatMap_cons, paced_append] at hp
-    obtain ⟨c1, c2⟩ := clientStep_paced (o := o) so co h e hp.1
+    obtain ⟨c1, c2, c3⟩ := clientStep_paced (o := o) so co h e hp.1
     rw [List.foldl_cons]
-    exact ih c1 (by rw [c2]; exact hp.2)
+    obtain ⟨i1, i2, i3⟩ := ih c1 (by rw [c2]; exact hp.2)
+    refine ⟨i1, by rw [i2, c3], ?_⟩
+    rw [i3, c2, List.flatMap_cons, List.flatten_append, List.foldl_append]
 
 /-- the greeting is positive and the chunks of the whole list are paced: the session draws no negative
 reply -/
@@ -203,8 +209,8 @@ theorem session_paced (so : SOpts) (co : COpts) (o : Opts) (fs : FS) (es : List 
   rw [hr]
   simp only [Bool.not_true, Bool.false_eq_true, if_false]
   have hi : InSync ({ st := enter o (St.init fs) o.dest, sent := [], consumed := 0 + 1, failed := false,
-                      skip := 0, dead := false } : Sess) := ⟨rfl, rfl, rfl, by simp [h0]⟩
-  exact (foldl_paced so co es hi hp).failed
+                      skip := 0, dead := false } : Sess) := ⟨rfl, rfl, by simp [h0]⟩
+  rw [(foldl_paced so co es hi hp).2.1]
 
 /-! ## the chunks of a tree -/
 
